@@ -12,7 +12,18 @@ All statements are about the model functions of `Model/Spectral.lean` (`welchCsd
    window ADVANCED by `d` samples — for a flat window exactly `g·tw(k·d)` times the auto entry
    (`sd_cor_gain_delay_flat`): the `conj(X)·Y` convention of `"per"`, phase `−2π·f·d·dt`.
    `np.conj(Pxy)` before `irfft`, or swapped arguments of the first-stage `csd`, give the
-   conjugate phase (`Mutants/C13.lean`).
+   conjugate phase (`Mutants/C13.lean`: instances, and `cor_conj_opposite_phase` in general).
+   Swapping data and reference conjugates the `"per"` entry and the first stage of `"cor"`
+   (`sd_per_swap_conj`, `corPxy_swap_conj`).
+2. **Gain and delay under the Hann window** (`"per"`, `nfft = nperseg`, every overlap).  A circular
+   delay under a window is a phase factor times the un-delayed segment under the ADVANCED window
+   (`welchX_delay_window`); for the Hann window that is the three-term kernel
+   `½F[k] − ¼tw(d)F[k+1] − ¼conj(tw d)F[k−1]` (`sd_per_gain_delay_kernel`), and the ratio is exactly
+   `g·tw(k·d)` where the two adjacent lines are empty (`sd_per_gain_delay`).
+3. **Segment-mean removal is immaterial on lines `2 … n−2`** (`sd_per_welch_no_detrend`): the Hann
+   window's transform vanishes there.
+4. **The side conditions `tw m ≠ 1`** hold for `exp(−2πi·m/n)`, `0 < m < n` (`twR_primitive`);
+   `sd_sinusoid` with every hypothesis discharged for every `n` (`sd_sinusoid_roots_of_unity`).
 -/
 namespace PV.C13
 open PV Finset
@@ -212,6 +223,25 @@ theorem sd_cor_gain_delay_flat [Field K] (Yall Yref : Mat K) (dt : K) (nxseg : N
   have : (fun u => ew ((u + d) % (2 * (nxseg / 2)))) = ew := by
     funext u; rw [hew, hew]
   rw [this]
+
+/-- **Swapping data and reference conjugates the entry** (`"per"`):
+    `S(Yr, Y)[j,i] = conj(S(Y, Yr)[i,j])` — the estimate is sesquilinear, the FIRST argument
+    carrying the conjugation. -/
+theorem sd_per_swap_conj [Field K] (Y Yr : Mat K) (dt : K) (nxseg nov : Nat) (tw : Nat → CxS K)
+    (hc : Y.c = Yr.c) (i j k : Nat) :
+    (sdEstPer Yr Y dt nxseg nov tw).e j i k = CxS.conj ((sdEstPer Y Yr dt nxseg nov tw).e i j k) := by
+  simp only [sd_pairing_per_entry, welchCsd_val, hc, CxS.conj_mul, CxS.conj_ofReal, CxS.conj_sum,
+    CxS.conj_conj]
+  congr 1
+  apply sum_congr rfl; intro s _; ring
+
+/-- the same for the first stage of the correlogram chain: swapped arguments ARE `np.conj(Pxy)`. -/
+theorem corPxy_swap_conj [Field K] (Y Yr : Mat K) (nxseg : Nat) (tw : Nat → CxS K)
+    (hc : Y.c = Yr.c) (i j q : Nat) :
+    corPxy Yr Y nxseg tw j i q = CxS.conj (corPxy Y Yr nxseg tw i j q) := by
+  simp only [corPxy, welchCsd_val, hc, CxS.conj_mul, CxS.conj_ofReal, CxS.conj_sum, CxS.conj_conj]
+  congr 1
+  apply sum_congr rfl; intro s _; ring
 
 /-! ### 2. gain and delay under the Hann window (`"per"`, the configuration `SD_est` uses) -/
 
@@ -474,6 +504,10 @@ example : (sdEstCor exC exC (1 / 100) 12 tw4 tw4 (fun _ => 1 / 2)).e 0 1 1
   sd_cor_gain_delay_flat exC exC (1 / 100) 12 (by decide) tw4 _ (1 / 2) (fun _ => rfl) tw4_mul
     tw4_period12 tw4_unit tw4_half12 rfl 0 1 (-3) 1 (by decide) exC_delay exC_tail 1
 example : (sdEstCor exC exC (1 / 100) 12 tw4 tw4 (fun _ => 1 / 2)).e 0 0 1 ≠ 0 := by decide +kernel
+-- swapping: `exC` against itself (equal record lengths), a non-real entry
+example := sd_per_swap_conj exC exC (1 / 100) 4 2 tw4 rfl 0 1 1
+example := corPxy_swap_conj exC exC 12 tw4 rfl 0 1 1
+example : (corPxy exC exC 12 tw4 0 1 1).im ≠ 0 := by decide +kernel
 -- the twiddle hypotheses for the genuine roots of unity, e.g. nxseg = 1024
 example := cor_hyps_roots_of_unity 512 (by decide)
 
